@@ -428,6 +428,11 @@ impl<'a, 'tcx> Cx<'a, 'tcx> {
                         let adt = self.tcx.adt_def(*d);
                         let v = adt.variant(*vi);
                         j.put("variant", J::s(v.name.to_string()));
+                        j.put("vidx", J::Int(vi.as_u32() as i128));
+                        if adt.is_enum() {
+                            let dv = adt.discriminant_for_variant(self.tcx, *vi);
+                            j.put("dval", J::Int(dv.val as i128));
+                        }
                         j.put(
                             "fields",
                             J::Arr(v.fields.iter().map(|f| J::s(f.name.to_string())).collect()),
